@@ -533,6 +533,36 @@ def rule_PL6(ctx, tier):
         rr.ok("should_start = stopped && has pending")
     else:
         rr.fail("should_start-shape", "should_start is `%s`" % ret[:100], where=ss.span)
+    # the client-visible retrier registry (WTClient.retriers): a retrier is registered while running/idle, removed when it
+    # stops, and a FAILED retrier stays registered until the manager itself drops it (remove_if_failed) — this is what makes
+    # `retrytower` refuse while a dead retrier object could still swallow the data
+    st = P.require("watchtower_plugin::retrier::Retrier::set_status")
+    rm_s = [x for x in sites_containing(st, "HashMap", "::remove") if "f:retriers" in og.show(arg_origin(ctx, st, x, 0))]
+    in_s = [x for x in sites_containing(st, "HashMap", "::insert") if "f:retriers" in og.show(arg_origin(ctx, st, x, 0))]
+    if rm_s and all(truth_fact(ctx, st, x, "Retrier::is_stopped") is True for x in rm_s):
+        rr.ok("set_status: registry entry removed only when the retrier is stopped (not when it failed)")
+    else:
+        rr.fail("registry:removed-unless-stopped", "Retrier::set_status removes the retrier from WTClient.retriers on a path where it is not known to be Stopped (e.g. Failed): a manual retry is then accepted while the manager still holds the dead retrier, which swallows the data", where=st.span)
+    # `is_running() || is_idle()` is two nested branches: the insert must be unreachable once both are false,
+    # and reached whenever one of them is true
+    neither = [succ for sw, succ in switch_succ_with(ctx, st, "truth", False, "Retrier::is_idle") if truth_fact(ctx, st, succ, "Retrier::is_running") is False]
+    either = [succ for sw, succ in switch_succ_with(ctx, st, "truth", True, "Retrier::is_running")] + [succ for sw, succ in switch_succ_with(ctx, st, "truth", True, "Retrier::is_idle")]
+    if in_s and neither and either and not any(x in st.reachable(n) for n in neither for x in in_s) and all(always_reaches(st, [e], in_s) for e in either):
+        rr.ok("set_status: registered exactly while running or idle")
+    else:
+        rr.fail("registry:insert-gate", "Retrier::set_status does not register the retrier exactly when it is running or idle", where=st.span)
+    removers = set()
+    for b2 in P.bodies.values():
+        if not b2.id.startswith("watchtower_plugin::"):
+            continue
+        for x in sites_containing(b2, "HashMap", "::remove"):
+            if "f:retriers" in og.show(arg_origin(ctx, b2, x, 0)) and "WTClient" in og.show(arg_origin(ctx, b2, x, 0)) + b2.locals[1]["ty"] + " ".join(l["ty"] for l in b2.locals):
+                removers.add(b2.id)
+    want_rm = {"watchtower_plugin::retrier::Retrier::set_status", "watchtower_plugin::retrier::Retrier::remove_if_failed"}
+    if removers == want_rm:
+        rr.ok("registry removers = {set_status, remove_if_failed}")
+    else:
+        rr.fail("registry:removers:%s" % ",".join(sorted(shortfn(x) for x in removers ^ want_rm)), "WTClient.retriers entries are removed by %s (expected %s)" % (sorted(removers), sorted(want_rm)))
     # data sent to an idle retrier is refused
     m = P.require("watchtower_plugin::retrier::RetryManager::manage_retry::{closure#0}")
     loads = sites(m, PDBM + "load_appointment_locators")
@@ -546,7 +576,7 @@ def rule_PL6(ctx, tier):
             rr.fail("idle-wake:reload", "an idle retrier is woken without reloading its pending appointments from the database", where=m.line_of(bb))
     if len(loads) != 2:
         rr.fail("idle-wake:sites=%d" % len(loads), "expected 2 idle wake-up sites (manual, timed) reloading from disk", where=m.span)
-    rr.require_floor(11, "PL6 instances")
+    rr.require_floor(14, "PL6 instances")
     return rr
 
 
